@@ -170,10 +170,17 @@ Inductive op :=
 
 Definition history := list op.
 
-(* which of the two small repairs (patches/fix-C12-*.diff) the code carries *)
+(* Which of the two small repairs of F6 the code carries.  The tree under verification carries BOTH
+   (commit 5de21e5 "reject a key whose value is not hex before storing or attesting it" = fix_hex,
+    commit 04b956c "do not echo the key response body in acquire_key errors" = fix_body), so [current]
+   is the model of the code; the other variants are kept to state exactly what each repair prevents
+   (and what a revert would bring back). *)
 Record variant := { fix_hex : bool; fix_body : bool }.
 Definition unfixed : variant := {| fix_hex := false; fix_body := false |}.
 Definition repaired : variant := {| fix_hex := true; fix_body := true |}.
+Definition current : variant := repaired.
+Definition only_body_repair : variant := {| fix_hex := false; fix_body := true |}.
+Definition only_hex_repair : variant := {| fix_hex := true; fix_body := false |}.
 
 (* ---------------------------------------------------------------------------------------- *)
 (* agent state                                                                              *)
@@ -267,7 +274,8 @@ Definition msg_acquire_deser (body : text) : text :=
 (* e = Error::Key(KeyErrorType::KeyResponse("acquire", status)) *)
 Definition msg_acquire_status : text :=
   [Lit "Failed to acquire key details: "; Lit "Key(KeyResponse(""acquire"", "; Public "status code"; Lit "))"].
-(* repaired behaviours (patches/fix-C12-acquire-body.diff, fix-C12-acquire-nonhex.diff) *)
+(* repaired behaviours: key.rs acquire_key maps the body error to SendKeyRequest("acquire", fixed text);
+   key_keeper.rs refuses a non-hex key with a fixed status message before store / attest *)
 Definition msg_acquire_body_fixed : text :=
   [Lit "Failed to acquire key details: "; Lit "Key(SendKeyRequest(""acquire"", ""the response body is not a valid key document""))"].
 Definition msg_acquire_nonhex_fixed : text :=
